@@ -14,4 +14,5 @@ def check(run, replay=None):
                           translated=[("Props/C01T", ["c01_translated_one_published_name_per_variant"]),
                                       ("Props/C01V", ["c01_translated_variants_of_one_kind", "c01_translated_selected_methods",
                                                      "c01_translated_from_items_to_variants", "c01_translated_selected_from_items",
-                                                     "c01_translated_one_variant"])])
+                                                     "c01_translated_one_variant"]),
+                                      ("Props/C01B", ["c01_hand_model_method_kind", "c01_hand_model_and_translated_code_select_the_same_methods"])])
